@@ -185,7 +185,8 @@ func (mc *Chain) processVerifyBlock(ctx context.Context, b *block.Block) error {
 
 	// get previous block notarization tickets, and update local prev block if exist
 	if b.Round > 1 {
-		go func() {
+		// hand the block to the goroutine by value: the variable b is reassigned below
+		go func(b *block.Block) {
 			// TODO: check if the block's prev notarized block reached the notarization threshold
 			pr := mc.GetMinerRound(b.Round - 1)
 			cctx, cancel := context.WithTimeout(context.Background(), time.Second)
@@ -194,7 +195,7 @@ func (mc *Chain) processVerifyBlock(ctx context.Context, b *block.Block) error {
 				logging.Logger.Error("error during previous block notarization verification", zap.Error(err))
 				return
 			}
-		}()
+		}(b)
 	}
 
 	mr := mc.GetMinerRound(b.Round)
